@@ -40,6 +40,10 @@ def configs(tier):
                             if el != 4:
                                 cfg['el'] = el
                             out.append(cfg)
+    # epoch_df called directly with a signal whose length is not a whole number of epochs: the trailing, shorter epoch counts
+    for ne in (1, 2):
+        for rows in (1, 2, 3):
+            out.append({'fn': 'epoch_df', 'epochs': ne, 'rows': rows, 'centre': 'peak', 'rem': True})
     # the same option object(s) used for a second analysis
     for kw in ('dict', 'list'):
         out.append({'fn': '2d', 'epochs': 2, 'rows': 3, 'centre': 'trough', 'kw': kw, 'method': 'cycles', 'repeat': True})
@@ -121,6 +125,12 @@ def run(ctx, cfg):
     elen = ctx.integer('epoch_len')
     ctx.assume(elen >= 1)
     sig_len = ne * elen
+    if cfg.get('rem'):
+        rem = ctx.integer('remainder')
+        ctx.assume(rem >= 1)
+        ctx.assume(rem <= elen - 1)
+        sig_len = ne * elen + rem
+        ne = ne + 1
     if cfg['fn'] == 'epoch_df':
         data, scols = flat_table(ctx, rows, centre, sig_len, 'cycles')
         df = pd.DataFrame({c: list(v) for c, v in data.items()})
